@@ -77,6 +77,10 @@ CHECKS = {
    technique="TLA+ Script.tla (C2URL precedence, template-file state machine, fresh IDs) checked with TLC; every source combination and every template history replayed against a real hsrv over raw TLS; scripts executed by real /bin/sh + curl",
    text="Script.tla gives the callback address as a function of which sources a request carries and the template file as a state machine re-read per request; TLC enumerates all 288 source combinations (incl. POST form bodies, HTTP/1.0 without Host, SNI, listen port 443) and all edit/request histories up to the bound; each is played against a real server (real file edits, removals, re-creations), the script is taken apart (both pins = hash of the presented leaf, same URL, same safe ID, never repeated), thousands of scripts are requested for ID freshness, and scripts are piped to real /bin/sh with real curl until a command round-trips through the attached shell.",
    note="A raw UTF-8 Host never reaches the handler (net/http answers 400); the IDNA clause is exercised with hosts net/http lets through."),
+ "C12": dict(level="model_checking", design="DESIGN.md §6 C12, §4.2, §4.5",
+   technique="TLA+ OneShell.tla (listener, broker events, graceful shutdown, exit) model-checked with TLC incl. liveness; every edge of its graph replayed with the real binary started with -one-shell on a pty and real TLS clients",
+   text="OneShell.tla states ClosedOnlyAfterFull, OpenWhileNotFull, ShellUndisturbed, NoHelpAfterGone, StaysWhileShellAttached and, under fairness, ClosesAfterFull and ExitsAtNextLine; TLC checks them over every arrival order (in/out, out/in, /io), refused and dropped half-attached attempts beforehand, probes, traffic and each way the shell may end. Walks covering every edge are replayed with the real binary on a pseudo-terminal: connect(2) probes before and after the ready notice, traffic both ways through the surviving shell, the shell ended by closing one of its streams, then the operator's line: exit status 0, farewell, no callback help after the shell is gone, termios restored.",
+   note="'Shortly' is 3 s, the deciding line is entered 1.2 s after the shell has gone (the graceful shutdown polls up to 500 ms apart). An implementation ahead of the specification's silent steps is accepted."),
 }
 
 PENDING = {}
